@@ -14,7 +14,30 @@ use crate::engine::Property;
 use crate::runner::{Case, SubCheck, SubOutcome, Tier};
 use crate::util::{par_enumerate, Acc};
 
+/// Dates at and next to the first and last dates chrono represents (years -262143 and 262142).
+fn gen_extreme_date(ch: &mut Choices) -> NaiveDate {
+    let ymd = |y, m, d| NaiveDate::from_ymd_opt(y, m, d).unwrap();
+    match ch.draw(12) {
+        0 => NaiveDate::MAX,
+        1 => NaiveDate::MIN,
+        2 => NaiveDate::MAX.pred_opt().unwrap(),
+        3 => NaiveDate::MIN.succ_opt().unwrap(),
+        4 => ymd(262142, 1, 1),
+        5 => ymd(262142, 6, 15),
+        6 => ymd(262141, 12, 31),
+        7 => ymd(-262143, 12, 31),
+        8 => ymd(-262142, 1, 1),
+        9 => ymd(262100, 2, 28),
+        10 => ymd(262142 - ch.int(0, 3) as i32, 1 + ch.draw(12), 1 + ch.draw(28)),
+        _ => ymd(-262143 + ch.int(0, 3) as i32, 1 + ch.draw(12), 1 + ch.draw(28)),
+    }
+}
+
 fn gen_date(ch: &mut Choices, base: i32, stored: &BTreeSet<NaiveDate>) -> NaiveDate {
+    if base == EXTREME_BASE && ch.chance(50) {
+        return gen_extreme_date(ch);
+    }
+    let base = if base == EXTREME_BASE { 2000 } else { base };
     // relative to an already stored date (duplicates, neighbours, year edges)
     if !stored.is_empty() && ch.chance(35) {
         let idx = ch.draw(stored.len().min(60000) as u32) as usize;
@@ -72,13 +95,26 @@ fn compare_all(cal: &CompactCalendar, set: &BTreeSet<NaiveDate>, hist: &str) -> 
     Ok(())
 }
 
+/// Marker value of `base` selecting the generator of extreme dates.
+const EXTREME_BASE: i32 = i32::MIN;
+
+/// Histories over calendars holding the first / last representable dates (a calendar holding both
+/// spans 524 286 years, 25 MB): fewer and shorter than the ordinary histories.
+fn history_extremes(ch: &mut Choices, case: &mut Case) -> Result<(), String> {
+    history_with(ch, case, EXTREME_BASE, 14)
+}
+
 fn history(ch: &mut Choices, case: &mut Case) -> Result<(), String> {
     let base = 1990 + ch.int(0, 60) as i32;
+    history_with(ch, case, base, 60)
+}
+
+fn history_with(ch: &mut Choices, case: &mut Case, base: i32, max_ops: u32) -> Result<(), String> {
     let mut cal = CompactCalendar::default();
     let mut set: BTreeSet<NaiveDate> = BTreeSet::new();
     let mut order: Vec<NaiveDate> = Vec::new();
     let mut hist = String::new();
-    let n_ops = 1 + ch.draw(60);
+    let n_ops = 1 + ch.draw(max_ops);
     let mut cross_year = false;
     let mut streams = 0;
     for _ in 0..n_ops {
@@ -99,6 +135,12 @@ fn history(ch: &mut Choices, case: &mut Case) -> Result<(), String> {
                 }
                 if d.year() < 0 {
                     case.label("negative_year");
+                }
+                if d.year() == 262142 {
+                    case.label("last_representable_year");
+                }
+                if d.year() == -262143 {
+                    case.label("first_representable_year");
                 }
                 if d.day() == 31 {
                     case.label("day31");
@@ -394,14 +436,23 @@ pub fn property() -> Property {
                 text_f: None,
                 cases_quick: 40_000,
                 cases_thorough: 1_000_000,
-                max_choices: 400,
+                max_choices: 420,
+            },
+            SubCheck {
+                name: "history_extremes",
+                rule: "the same histories (1-14 operations) over dates of which half lie in or next to the first / last years chrono represents (-262143, 262142; a calendar holding both spans 524 286 years); non-trivial = as above",
+                f: history_extremes,
+                text_f: None,
+                cases_quick: 400,
+                cases_thorough: 8_000,
+                max_choices: 200,
             },
             SubCheck {
                 name: "year_history",
                 rule: "model-based histories on CompactYear (insert / contains / first_after / iter+count+first / serialize with trailing bytes) against BTreeSet<(month, day)>, days 1..=31 in every month; non-trivial = a first_after answer in a later month",
                 f: year_history,
                 text_f: None,
-                cases_quick: 20_000,
+                cases_quick: 60_000,
                 cases_thorough: 400_000,
                 max_choices: 200,
             },
